@@ -4,7 +4,41 @@ convertMCNPGeometry, and render the snapshot as a Coq term for the model.'''
 import contextlib
 
 import impl
-from common import cz, cbool, cfloat, cstr, clist, copt, cpair
+import common
+from common import cbool, clist, copt, cpair
+
+
+# compact literals: the generated files open string_scope and Z_scope, so
+# strings and integers need no scope suffix; floats are marked per list
+def cz(n):
+    n = int(n)
+    return f'({n})' if n < 0 else str(n)
+
+
+def cstr(text):
+    return common.cstr(text)[:-len('%string')]
+
+
+def cfloat(value):
+    '''Bit-exact hexadecimal literal without the scope suffix, trailing
+    zeros of the mantissa dropped.'''
+    value = float(value)
+    if value != value:
+        return 'nan'
+    if value in (float('inf'), float('-inf')):
+        return 'infinity' if value > 0 else 'neg_infinity'
+    text = value.hex()
+    sign = text.startswith('-')
+    text = text.lstrip('-')
+    mant, expo = text.split('p')
+    if '.' in mant:
+        mant = mant.rstrip('0').rstrip('.')
+    lit = f'{mant}p{expo}'
+    return f'(-{lit})' if sign else lit
+
+
+def cfloats(values):
+    return '[' + '; '.join(cfloat(v) for v in values) + ']%float'
 
 
 class Capture:
@@ -171,9 +205,9 @@ def coq_surface(surf):
     _key, typ, pfl, pst, trn, origin = surf
     ctr = 'None' if trn is None else \
         f'(Some {clist(cstr(x) for x in trn[1])})'
-    ceq = cpair(cstr(typ), clist(cfloat(x) for x in pfl),
+    ceq = cpair(cstr(typ), cfloats(pfl),
                 'None' if trn is None
-                else f'(Some {clist(cfloat(x) for x in trn[0])})')
+                else f'(Some {cfloats(trn[0])})')
     return (f'(mkSurf {cstr(typ)} {clist(cstr(x) for x in pst)} {ctr} '
             f'{clist(cstr(x) for x in origin)} {ceq})')
 
